@@ -32,6 +32,11 @@ package evm
 //@   ensures[C18.evm_export_address_faithful] forall i int :: (0 <= i && i < kvSeqLen(kvHas[kvId(layer(ctx), payload(k.storeKey))], b1(4)) && evmIdxExported(kvHas[kvId(layer(ctx), payload(k.storeKey))], kvVal[kvId(layer(ctx), payload(k.storeKey))], i)) ==> (0 <= evmExpCount(kvHas[kvId(layer(ctx), payload(k.storeKey))], kvVal[kvId(layer(ctx), payload(k.storeKey))], i) && evmExpCount(kvHas[kvId(layer(ctx), payload(k.storeKey))], kvVal[kvId(layer(ctx), payload(k.storeKey))], i) < len(gs.Accounts) && gs.Accounts[evmExpCount(kvHas[kvId(layer(ctx), payload(k.storeKey))], kvVal[kvId(layer(ctx), payload(k.storeKey))], i)].Address == evmIdxAddr(kvHas[kvId(layer(ctx), payload(k.storeKey))], i).String())
 //@   ensures[C18.evm_export_code_faithful] forall i int :: (0 <= i && i < kvSeqLen(kvHas[kvId(layer(ctx), payload(k.storeKey))], b1(4)) && evmIdxExported(kvHas[kvId(layer(ctx), payload(k.storeKey))], kvVal[kvId(layer(ctx), payload(k.storeKey))], i)) ==> gs.Accounts[evmExpCount(kvHas[kvId(layer(ctx), payload(k.storeKey))], kvVal[kvId(layer(ctx), payload(k.storeKey))], i)].Code == hexEnc(evmCodeOf(kvHas[kvId(layer(ctx), payload(k.storeKey))], kvVal[kvId(layer(ctx), payload(k.storeKey))], evmIdxHash(kvHas[kvId(layer(ctx), payload(k.storeKey))], kvVal[kvId(layer(ctx), payload(k.storeKey))], i)))
 //@   ensures[C18.evm_export_storage_faithful] forall i int :: (0 <= i && i < kvSeqLen(kvHas[kvId(layer(ctx), payload(k.storeKey))], b1(4)) && evmIdxExported(kvHas[kvId(layer(ctx), payload(k.storeKey))], kvVal[kvId(layer(ctx), payload(k.storeKey))], i)) ==> evmExpStorage(gs.Accounts[evmExpCount(kvHas[kvId(layer(ctx), payload(k.storeKey))], kvVal[kvId(layer(ctx), payload(k.storeKey))], i)].Storage, kvHas[kvId(layer(ctx), payload(k.storeKey))], kvVal[kvId(layer(ctx), payload(k.storeKey))], evmIdxAddr(kvHas[kvId(layer(ctx), payload(k.storeKey))], i))
+// "The export determines the view" needs every owner of storage records to be exported. Only addresses with a non-empty code
+// hash are: the storage of an address WITHOUT code hash (a deployment whose constructor did SSTORE and returned no runtime
+// code; a genesis account with storage but no code) is dropped. This clause FAILS on this tree (finding F8-evm,
+// /verif/docs/findings-gen.md, replayed: /verif/replay/findings/gen_C18_codeless_storage_test.go); kept failing, not repaired.
+//@   ensures[C18.evm_export_determines_storage] forall a common.Address :: kvSeqLen(kvHas[kvId(layer(ctx), payload(k.storeKey))], evmStoragePrefixB(a)) > 0 ==> (kvHas[kvId(layer(ctx), payload(k.storeKey))][evmCodeHashKeyB(a)] && !isEmptyCodeHash(hashOfBytes(kvVal[kvId(layer(ctx), payload(k.storeKey))][evmCodeHashKeyB(a)])))
 //@   ensures[C18.evm_export_params] gs.Params.EvmDenom == evmDenomOf[layer(ctx)] && gs.Params.EnableCreate == evmEnableCreate[layer(ctx)] && gs.Params.EnableCall == evmEnableCall[layer(ctx)]
 //@   panics never
 //@ loop 1 of IterateContracts
@@ -41,3 +46,43 @@ package evm
 //@   invariant[C18.evm_export_address_faithful] forall i int :: (0 <= i && i < itPos[payload(iterator)] && evmIdxExported(kvHas[kvId(layer(ctx), payload(k.storeKey))], kvVal[kvId(layer(ctx), payload(k.storeKey))], i)) ==> (0 <= evmExpCount(kvHas[kvId(layer(ctx), payload(k.storeKey))], kvVal[kvId(layer(ctx), payload(k.storeKey))], i) && evmExpCount(kvHas[kvId(layer(ctx), payload(k.storeKey))], kvVal[kvId(layer(ctx), payload(k.storeKey))], i) < len(ethGenAccounts) && ethGenAccounts[evmExpCount(kvHas[kvId(layer(ctx), payload(k.storeKey))], kvVal[kvId(layer(ctx), payload(k.storeKey))], i)].Address == evmIdxAddr(kvHas[kvId(layer(ctx), payload(k.storeKey))], i).String())
 //@   invariant[C18.evm_export_code_faithful] forall i int :: (0 <= i && i < itPos[payload(iterator)] && evmIdxExported(kvHas[kvId(layer(ctx), payload(k.storeKey))], kvVal[kvId(layer(ctx), payload(k.storeKey))], i)) ==> ethGenAccounts[evmExpCount(kvHas[kvId(layer(ctx), payload(k.storeKey))], kvVal[kvId(layer(ctx), payload(k.storeKey))], i)].Code == hexEnc(evmCodeOf(kvHas[kvId(layer(ctx), payload(k.storeKey))], kvVal[kvId(layer(ctx), payload(k.storeKey))], evmIdxHash(kvHas[kvId(layer(ctx), payload(k.storeKey))], kvVal[kvId(layer(ctx), payload(k.storeKey))], i)))
 //@   invariant[C18.evm_export_storage_faithful] forall i int :: (0 <= i && i < itPos[payload(iterator)] && evmIdxExported(kvHas[kvId(layer(ctx), payload(k.storeKey))], kvVal[kvId(layer(ctx), payload(k.storeKey))], i)) ==> evmExpStorage(ethGenAccounts[evmExpCount(kvHas[kvId(layer(ctx), payload(k.storeKey))], kvVal[kvId(layer(ctx), payload(k.storeKey))], i)].Storage, kvHas[kvId(layer(ctx), payload(k.storeKey))], kvVal[kvId(layer(ctx), payload(k.storeKey))], evmIdxAddr(kvHas[kvId(layer(ctx), payload(k.storeKey))], i))
+
+// ---------------------------------------------------------------------------------------------
+// genesis.go InitGenesis (C18). Proved (for every genesis document, valid or not): InitGenesis only ADDS records to the evm
+// store (nothing that was there is deleted), and on normal return, for every genesis account j (address a_j =
+// HexToAddress(Address), code c_j = the hex decoding of Code, h_j = keccak256(c_j)):
+//     the code-hash index has an entry for a_j           unless h_j is the empty code hash (c_j empty),
+//     the code store has a record under h_j              unless c_j is empty,
+//     every storage entry m of the account has a record under [2] ++ a_j ++ HexToHash(Key_m).
+// NOT proved here: the VALUES of these records (they are what the three verified setters write — SetCodeHash: the 32 bytes
+// of h_j, SetCode: c_j, SetState: the 32 bytes of HexToHash(Value_m) — but a later account or entry with the same address /
+// slot overwrites an earlier one, and stating "last writer wins" needs injectivity of the key layout over abstract byte
+// strings, which the byte-string vocabulary does not provide), and the exact panic conditions (panics any).
+// ---------------------------------------------------------------------------------------------
+//@ import abci "github.com/cometbft/cometbft/abci/types"
+//@ ghost func evmGenCodeHash(code string) common.Hash = hashOfBytes(keccak256(hexDecLoose(code)))
+
+//@ func InitGenesis(ctx sdk.Context, k *evmkeeper.Keeper, accountKeeper evmtypes.AccountKeeper, data evmtypes.GenesisState) (updates []abci.ValidatorUpdate)
+//@   requires k != nil && k.storeKey != nil && accountKeeper != nil
+//@   modifies kvHas[kvId(layer(ctx), payload(k.storeKey))], kvVal[kvId(layer(ctx), payload(k.storeKey))]
+//@   ensures[C18.evm_init_no_validator_updates] len(updates) == 0
+//@   ensures[C18.evm_init_nothing_deleted] forall key bytes :: old(kvHas[kvId(layer(ctx), payload(k.storeKey))][key]) ==> kvHas[kvId(layer(ctx), payload(k.storeKey))][key]
+//@   ensures[C18.evm_init_code_linked] forall j int :: (0 <= j && j < len(data.Accounts) && !isEmptyCodeHash(evmGenCodeHash(data.Accounts[j].Code))) ==> kvHas[kvId(layer(ctx), payload(k.storeKey))][evmCodeHashKeyB(common.HexToAddress(data.Accounts[j].Address))]
+//@   ensures[C18.evm_init_code_stored] forall j int :: (0 <= j && j < len(data.Accounts) && blen(hexDecLoose(data.Accounts[j].Code)) > 0) ==> kvHas[kvId(layer(ctx), payload(k.storeKey))][evmCodeKeyB(evmGenCodeHash(data.Accounts[j].Code))]
+//@   ensures[C18.evm_init_storage_written] forall j int, m int :: (0 <= j && j < len(data.Accounts) && 0 <= m && m < len(data.Accounts[j].Storage)) ==> kvHas[kvId(layer(ctx), payload(k.storeKey))][evmStateKeyB(common.HexToAddress(data.Accounts[j].Address), common.HexToHash(data.Accounts[j].Storage[m].Key))]
+//@   panics any
+//@ loop 1
+//@   modifies kvHas[kvId(layer(ctx), payload(k.storeKey))], kvVal[kvId(layer(ctx), payload(k.storeKey))]
+//@   invariant -1 <= rangeindex && rangeindex < len(data.Accounts)
+//@   invariant[C18.evm_init_nothing_deleted] forall key bytes :: old(kvHas[kvId(layer(ctx), payload(k.storeKey))][key]) ==> kvHas[kvId(layer(ctx), payload(k.storeKey))][key]
+//@   invariant[C18.evm_init_code_linked] forall j int :: (0 <= j && j <= rangeindex && !isEmptyCodeHash(evmGenCodeHash(data.Accounts[j].Code))) ==> kvHas[kvId(layer(ctx), payload(k.storeKey))][evmCodeHashKeyB(common.HexToAddress(data.Accounts[j].Address))]
+//@   invariant[C18.evm_init_code_stored] forall j int :: (0 <= j && j <= rangeindex && blen(hexDecLoose(data.Accounts[j].Code)) > 0) ==> kvHas[kvId(layer(ctx), payload(k.storeKey))][evmCodeKeyB(evmGenCodeHash(data.Accounts[j].Code))]
+//@   invariant[C18.evm_init_storage_written] forall j int, m int :: (0 <= j && j <= rangeindex && 0 <= m && m < len(data.Accounts[j].Storage)) ==> kvHas[kvId(layer(ctx), payload(k.storeKey))][evmStateKeyB(common.HexToAddress(data.Accounts[j].Address), common.HexToHash(data.Accounts[j].Storage[m].Key))]
+//@ loop 2
+//@   modifies kvHas[kvId(layer(ctx), payload(k.storeKey))], kvVal[kvId(layer(ctx), payload(k.storeKey))]
+//@   invariant -1 <= rangeindex(1) && rangeindex(1) + 1 < len(data.Accounts) && -1 <= rangeindex && rangeindex < len(data.Accounts[rangeindex(1) + 1].Storage) && address == common.HexToAddress(data.Accounts[rangeindex(1) + 1].Address)
+//@   invariant[C18.evm_init_nothing_deleted] forall key bytes :: old(kvHas[kvId(layer(ctx), payload(k.storeKey))][key]) ==> kvHas[kvId(layer(ctx), payload(k.storeKey))][key]
+//@   invariant[C18.evm_init_code_linked] forall j int :: (0 <= j && j <= rangeindex(1) + 1 && !isEmptyCodeHash(evmGenCodeHash(data.Accounts[j].Code))) ==> kvHas[kvId(layer(ctx), payload(k.storeKey))][evmCodeHashKeyB(common.HexToAddress(data.Accounts[j].Address))]
+//@   invariant[C18.evm_init_code_stored] forall j int :: (0 <= j && j <= rangeindex(1) + 1 && blen(hexDecLoose(data.Accounts[j].Code)) > 0) ==> kvHas[kvId(layer(ctx), payload(k.storeKey))][evmCodeKeyB(evmGenCodeHash(data.Accounts[j].Code))]
+//@   invariant[C18.evm_init_storage_written] forall j int, m int :: (0 <= j && j <= rangeindex(1) && 0 <= m && m < len(data.Accounts[j].Storage)) ==> kvHas[kvId(layer(ctx), payload(k.storeKey))][evmStateKeyB(common.HexToAddress(data.Accounts[j].Address), common.HexToHash(data.Accounts[j].Storage[m].Key))]
+//@   invariant[C18.evm_init_storage_written] forall m int :: (0 <= m && m <= rangeindex) ==> kvHas[kvId(layer(ctx), payload(k.storeKey))][evmStateKeyB(common.HexToAddress(data.Accounts[rangeindex(1) + 1].Address), common.HexToHash(data.Accounts[rangeindex(1) + 1].Storage[m].Key))]
